@@ -96,6 +96,23 @@ structure TETable where
   supports : List (String × String)
   deriving Repr, Inhabited
 
+/-- One function member *declared* by a vtable struct (`required_function_t<Sig> name;` /
+    `optional_function_t<Sig> name = default_name;`), read independently of the constructor's
+    `ALPAQA_TE_*_METHOD` lines that `TETable.entries` is read from. -/
+structure VtField where
+  name : String
+  optional : Bool
+  init : Option String
+  deriving DecidableEq, Repr, Inhabited
+
+/-- `R TypeErasedX::method(params) const { … call(vtable.entry, args) … }` -/
+structure TEDispatch where
+  method : String
+  entry : String
+  params : List String
+  args : List String
+  deriving DecidableEq, Repr, Inhabited
+
 /-- One function-pointer member of the C-ABI table in `dl-problem.h`. -/
 structure AbiMember where
   name : String
@@ -153,6 +170,9 @@ structure DLTable where
   init : List DLFwd
   /-- every member function declared by the class (dl-problem.hpp) -/
   declared : List String
+  /-- reads of the table's data members: (reader, member) — `<ctor>:x` for `this->x = functions->x`,
+      `get_name` for `functions->name`, inline getters `get_X() { return functions->X; }` -/
+  dataReads : List (String × String)
   deriving Repr, Inhabited
 
 /-! ### Predicates decided over the tables -/
@@ -190,6 +210,9 @@ def sameMembers (a b : List String) : Bool :=
 def nodupS : List String → Bool
   | [] => true
   | x :: xs => !xs.contains x && nodupS xs
+
+/-- number of occurrences -/
+def countS (xs : List String) (x : String) : Nat := (xs.filter (· == x)).length
 
 /-- every counter field is incremented by exactly one method, and nothing else is incremented -/
 def WrapperTable.countersBijective (t : WrapperTable) : Bool :=
